@@ -56,6 +56,7 @@ type Violation struct {
 	Detail      []string           `json:"detail,omitempty"`
 	Log         []string           `json:"log,omitempty"`
 	Confirmed   int                `json:"confirmed_reruns"`
+	Tier        string             `json:"tier,omitempty"` // the tier that found it: alphabets and grids depend on it
 	Path        string             `json:"-"`
 }
 
@@ -312,6 +313,9 @@ func Main() {
 			os.Exit(2)
 		}
 		ctx.Replay = &v
+		if v.Tier != "" {
+			ctx.Tier = v.Tier // replay under the tier that found it
+		}
 		rep := NewReport(p.ID)
 		p.Run(ctx, rep)
 		for _, nv := range rep.Violations {
@@ -454,6 +458,7 @@ func finish(ctx *Ctx, p *Prop, rep *Report, root string) int {
 		unknown++
 		h := sha1.Sum([]byte(v.Fingerprint))
 		path := filepath.Join(root, "violations", fmt.Sprintf("%s-%x.json", p.ID, h[:6]))
+		v.Tier = ctx.Tier
 		b, _ := json.MarshalIndent(v, "", " ")
 		os.WriteFile(path, b, 0o644)
 		fmt.Printf("VIOLATION property=%s replay=%s\n", p.ID, path)
